@@ -382,11 +382,21 @@ type zzGSt struct {
 func zzGGenBlock(depth, maxDepth int, lens []int, inLoop bool, ctr *int, locals []string) []*zzGSt {
 	n := 1 + zzChoice("glen", lens[depth])
 	var out []*zzGSt
+	own := map[string]bool{} // declared in this very block (a redeclaration there would be an error)
 	for i := 0; i < n; i++ {
 		last := i == n-1
 		kinds := []string{"acc", "decl"}
 		if len(locals) > 0 {
 			kinds = append(kinds, "use", "use2")
+		}
+		var outer []string // locals of enclosing blocks: they may be shadowed here
+		for _, l := range locals {
+			if !own[l] && l[0] == 'v' {
+				outer = append(outer, l)
+			}
+		}
+		if len(outer) > 0 {
+			kinds = append(kinds, "reshadow")
 		}
 		if depth < maxDepth {
 			kinds = append(kinds, "if", "ifelse", "while", "fornum", "forarr")
@@ -399,6 +409,10 @@ func zzGGenBlock(depth, maxDepth int, lens []int, inLoop bool, ctr *int, locals 
 		switch st.kind {
 		case "decl":
 			locals = append(locals, "v"+strconv.Itoa(st.k))
+			own["v"+strconv.Itoa(st.k)] = true
+		case "reshadow":
+			st.cond = outer[zzChoice("gouter", len(outer))]
+			own[st.cond] = true
 		case "use", "use2":
 			st.cond = locals[zzChoice("glocal", len(locals))]
 		case "if", "ifelse":
@@ -427,6 +441,8 @@ func zzGRender(sb *strings.Builder, sts []*zzGSt, ind int) {
 			sb.WriteString(pad + "v" + k + " := a + t + " + k + "\n" + pad + "t = t + v" + k + "\n")
 		case "use":
 			sb.WriteString(pad + "t = t * 2 + " + st.cond + " * 5 - (" + st.cond + " + 1)\n")
+		case "reshadow": // a declaration that shadows an outer local and whose initialiser reads the outer one
+			sb.WriteString(pad + st.cond + " := " + st.cond + " * 2 + 1\n" + pad + "t = t + " + st.cond + "\n")
 		case "use2": // the local is the first operand and is read again afterwards
 			sb.WriteString(pad + "t = " + st.cond + " * 7 + t\n" + pad + "t = " + st.cond + " - t\n")
 		case "break":
